@@ -150,8 +150,12 @@ def execute(case, sched: Sched):
                     if child not in tasks and child < len(scripts):
                         tasks[child] = {"pos": 0, "ref": [dict(f) for f in me["ref"]], "ctxless": me["ctxless"] and not me["ref"], "idle": False, "cmd": None}
                         if step["via"] == "ctx":
-                            tasks[child]["task"] = ctx.spawn(runner, child)
-                            obs["classes"].add("ctx-spawn")
+                            try:
+                                tasks[child]["task"] = ctx.spawn(runner, child)
+                                obs["classes"].add("ctx-spawn")
+                            except RuntimeError:
+                                # the inherited task group has already finished: asyncio refuses the spawn
+                                del tasks[child]
                         else:
                             tasks[child]["task"] = loop.create_task(runner(child))
                             obs["classes"].add("asyncio-create_task")
@@ -319,4 +323,4 @@ def strategy(tier):
 
 
 def budget(tier):
-    return {"examples": 400, "shards": 1} if tier == "quick" else {"examples": 4000, "shards": 16}
+    return {"examples": 1000, "shards": 1} if tier == "quick" else {"examples": 4000, "shards": 16}
